@@ -67,6 +67,8 @@ structure SameT (c c' : Conn) : Prop where
   hs : c'.handshakeEvent = c.handshakeEvent
   cl : c'.closeEvent = c.closeEvent
   addr : c'.remoteAddr = c.remoteAddr
+  acks : c'.ackEvents = c.ackEvents
+  pt : c'.pingTimeout = c.pingTimeout
 
 theorem SameT.ok {c c' : Conn} (h : SameT c c') : Ok c c' := by
   refine ⟨h.limit, h.rt, h.link, ?_, ?_, Or.inr ?_⟩
@@ -79,15 +81,15 @@ theorem assign_sameT (c c' : Conn) (p : Packet) (n : Nat) (h : c.assign p = .ok 
   split at h
   · split at h
     · cases h
-    · cases h; exact ⟨rfl, rfl, rfl, rfl, rfl, rfl, rfl, rfl, rfl⟩
+    · cases h; exact ⟨rfl, rfl, rfl, rfl, rfl, rfl, rfl, rfl, rfl, rfl, rfl⟩
   · split at h
-    · cases h; exact ⟨rfl, rfl, rfl, rfl, rfl, rfl, rfl, rfl, rfl⟩
-    · split at h <;> (cases h; exact ⟨rfl, rfl, rfl, rfl, rfl, rfl, rfl, rfl, rfl⟩)
+    · cases h; exact ⟨rfl, rfl, rfl, rfl, rfl, rfl, rfl, rfl, rfl, rfl, rfl⟩
+    · split at h <;> (cases h; exact ⟨rfl, rfl, rfl, rfl, rfl, rfl, rfl, rfl, rfl, rfl, rfl⟩)
 
 theorem assignIf_sameT (c c' : Conn) (p : Packet) (b : Bool) (n : Nat) (h : c.assignIf p b = .ok (n, c')) : SameT c c' := by
   unfold Conn.assignIf at h
   cases b with
-  | true => simp at h; rw [← h.2]; exact ⟨rfl, rfl, rfl, rfl, rfl, rfl, rfl, rfl, rfl⟩
+  | true => simp at h; rw [← h.2]; exact ⟨rfl, rfl, rfl, rfl, rfl, rfl, rfl, rfl, rfl, rfl, rfl⟩
   | false => simp at h; exact assign_sameT _ _ _ _ h
 
 theorem encodePayload_sameT (env : Env) (c c' : Conn) (p : Packet) (d : Bytes) (h : c.encodePayload env p = .ok (d, c')) :
@@ -98,20 +100,20 @@ theorem encodePayload_sameT (env : Env) (c c' : Conn) (p : Packet) (d : Bytes) (
     split at h
     · split at h
       · cases h
-      · split at h <;> (cases h; exact ⟨rfl, rfl, rfl, rfl, rfl, rfl, rfl, rfl, rfl⟩)
-    · split at h <;> (cases h; exact ⟨rfl, rfl, rfl, rfl, rfl, rfl, rfl, rfl, rfl⟩)
-  · cases h; exact ⟨rfl, rfl, rfl, rfl, rfl, rfl, rfl, rfl, rfl⟩
+      · split at h <;> (cases h; exact ⟨rfl, rfl, rfl, rfl, rfl, rfl, rfl, rfl, rfl, rfl, rfl⟩)
+    · split at h <;> (cases h; exact ⟨rfl, rfl, rfl, rfl, rfl, rfl, rfl, rfl, rfl, rfl, rfl⟩)
+  · cases h; exact ⟨rfl, rfl, rfl, rfl, rfl, rfl, rfl, rfl, rfl, rfl, rfl⟩
 
 theorem encodeIf_sameT (env : Env) (c c' : Conn) (p : Packet) (b : Bool) (d : Bytes) (h : c.encodeIf env p b = .ok (d, c')) :
     SameT c c' := by
   unfold Conn.encodeIf at h
   by_cases hc : p.type = TYPE_DATA ∧ (!b) = true
   · rw [if_pos hc] at h; exact encodePayload_sameT _ _ _ _ _ h
-  · rw [if_neg hc] at h; cases h; exact ⟨rfl, rfl, rfl, rfl, rfl, rfl, rfl, rfl, rfl⟩
+  · rw [if_neg hc] at h; cases h; exact ⟨rfl, rfl, rfl, rfl, rfl, rfl, rfl, rfl, rfl, rfl, rfl⟩
 
 theorem SameT.trans {a b c : Conn} (h1 : SameT a b) (h2 : SameT b c) : SameT a c :=
   ⟨h2.limit.trans h1.limit, h2.rt.trans h1.rt, h2.link.trans h1.link, h2.sched.trans h1.sched, h2.state.trans h1.state,
-   h2.eof.trans h1.eof, h2.hs.trans h1.hs, h2.cl.trans h1.cl, h2.addr.trans h1.addr⟩
+   h2.eof.trans h1.eof, h2.hs.trans h1.hs, h2.cl.trans h1.cl, h2.addr.trans h1.addr, h2.acks.trans h1.acks, h2.pt.trans h1.pt⟩
 
 /-- `transmit`: cleanup, or an exception with nothing changed, or the packet goes out and — for a packet that wants an
     acknowledgement — its retransmission timer is appended, due one `resend_timeout` later with counter 0 -/
